@@ -138,4 +138,15 @@ def pacing_structure(method, entry, o):
         if not at_stop and debts[-1][1] != "zero":
             probs.append("[pacing] returned in phase %s (pending=%s) with positive debt and not at the method's stop "
                          "condition" % (o["phase"], o["pending"]))
+        # "with all work factors zero a debt-driven call does not return until the collector is Sleeping again": under
+        # zero factors collection work pays nothing, so the debt test can only turn false through the one input of
+        # the debt that work changes without a factor - the empty-arena shortcut (debt is zero for an arena holding no
+        # allocation, C10's clause): the sweep step that frees the last allocation. That step also exhausts the cursor,
+        # so the call must not yield on the debt test between the last sweep step and the (free) roll-over to Sleep.
+        if method in ("collect_debt", "cycle_debt") and o["phase"] == "Sweep" and o["sweep"] is None and \
+                any(e[0] == "sweep_step" and e[1] == "Continue" for e in ev):
+            probs.append("[stw] the call swept the last object and then yielded on the debt test in phase Sweep with an "
+                         "exhausted cursor, one free step short of the roll-over: when that sweep freed the arena's last "
+                         "allocation the debt reads zero (empty-arena shortcut) and a stop-the-world call returns in "
+                         "Sweeping, the sleep after a full collection is skipped")
     return probs
